@@ -108,6 +108,8 @@ def run(chk):
                             chk.violated("R3", tsig, "constructor computes %s, operator computes %s" % (ev.show(cres[0][1])[:200], ev.show(res[0][1])[:200]), short(c.f.get("def_loc", c.f["loc"])))
                     except ev.Inconclusive as x:
                         chk.inconclusive("R3", tsig, str(x), short(c.f["loc"]))
+        # the component-wise kernels of the four tensor classes themselves (the "value shapes")
+        n_ops += tensor_kernels(chk, F, T)
         # R4
         dls = "PhQ::DimensionlessScalar<%s>" % T
         for name in MATH:
@@ -138,3 +140,65 @@ def run(chk):
     chk.floor("constructor/operator twins (x3)", n_tw, 500)
     chk.coverage["operators"] = n_ops
     chk.coverage["twins"] = n_tw
+
+
+TENSORS = ("PhQ::PlanarVector", "PhQ::Vector", "PhQ::SymmetricDyad", "PhQ::Dyad")
+
+
+def tensor_kernels(chk, F, T):
+    """+, -, *number, number*, /number and the compound assignments of the tensor classes: one operation per slot."""
+    n = 0
+    cands = []
+    for f in F.fns.values():
+        if "body" not in f or f.get("op") not in ("+", "-", "*", "/", "+=", "-=", "*=", "/="):
+            continue
+        if f["kind"] == "function" and len(f["params"]) == 2:
+            pts = [strip_cvref(t) for t in F.param_types(f)]
+            this = None
+        elif f["kind"] == "method" and len(f["params"]) == 1:
+            this = F.T(f["parent"])
+            pts = [this, strip_cvref(F.param_types(f)[0])]
+        else:
+            continue
+        def kind(t):
+            r = F.records.get(t)
+            if r is not None and r.get("template") in TENSORS and t.endswith("<%s>" % T):
+                return "tensor"
+            return "num" if t == T else None
+        ks = [kind(t) for t in pts]
+        if None in ks or "tensor" not in ks:
+            continue
+        cands.append((f, pts, ks, this))
+    for f, pts, ks, this in cands:
+        op = f["op"][0]
+        sig = "%s(%s)" % (f["name"], ", ".join(p.replace("PhQ::", "") for p in pts))
+        loc = short(f.get("def_loc", f["loc"]))
+        try:
+            E = ev.Evaluator(F)
+            if this is None:
+                res, _, args = E.run_symbolic(f, arg_prefixes=["a", "b"])
+                val = E.rv(res)
+            else:
+                res, this_lv, _ = E.run_symbolic(f, this_prefix="a", arg_prefixes=["b"])
+                val = E.load(this_lv) if f["op"].endswith("=") and len(f["op"]) == 2 else E.rv(res)
+            E0 = ev.Evaluator(F)
+            L = ev.flatten(E0.symbolic(pts[0], "a"))
+            R = ev.flatten(E0.symbolic(pts[1], "b"))
+            out = ev.flatten(val)
+            nL, nR = len(L), len(R)
+            if not ((op in "+-" and nL == nR == len(out)) or (op == "*" and (nL == 1 or nR == 1) and len(out) == max(nL, nR)) or (op == "/" and nR == 1 and len(out) == nL)):
+                continue   # contraction (matrix product): C09
+            n += 1
+            bad = None
+            for i, (path, got) in enumerate(out):
+                a = L[i][1] if nL > 1 else L[0][1]
+                b = R[i][1] if nR > 1 else R[0][1]
+                want = (OPNAME[op], a, b)
+                if not eq_mod_comm(got, want):
+                    bad = "slot %s = %s, expected the single operation %s" % (path, ev.show(got)[:200], ev.show(want))
+                    break
+            rule = "R2" if len(f["op"]) == 2 and f["op"].endswith("=") else "R1"
+            (chk.violated if bad else chk.holds)(rule, sig, bad or "%d slot(s): slot = a %s b" % (len(out), op), loc)
+        except ev.Inconclusive as x:
+            chk.inconclusive("R1", sig, str(x), loc)
+    return n
